@@ -285,6 +285,31 @@ func init() {
 		return Tuple{p.tt.U64(0), Iface{}}
 	}
 
+	// utils.Rand.Int31n uses rejection sampling over crypto/rand; the retry loop is cut: the draw is
+	// assumed not to be rejected (probability of a retry < 2^-17 per call for the n in use)
+	externals["(*github.com/refraction-networking/uquic/internal/utils.Rand).Int31n"] = func(p *Path, fr *Frame, fn *ssa.Function, a []Value) Value {
+		tt := p.tt
+		n := a[1].(*Term)
+		if !n.IsConst() {
+			p.unsupported("Rand.Int31n with symbolic bound")
+		}
+		name := p.fresh("rand")
+		p.inputs = append(p.inputs, InputRec{Name: name, Kind: "rand"})
+		v := tt.Const(BV32, 0)
+		for i := 0; i < 4; i++ {
+			b := tt.App(name, BV8, tt.U64(uint64(i)))
+			v = tt.Bin(OOr, tt.Bin(OShl, v, tt.Const(BV32, 8)), tt.Zext(b, 32))
+		}
+		v = tt.Bin(OAnd, v, tt.Const(BV32, 0x7fffffff))
+		nn := uint32(n.C)
+		if nn&(nn-1) == 0 {
+			return tt.Bin(OAnd, v, tt.Const(BV32, uint64(nn-1)))
+		}
+		max := uint32((1 << 31) - 1 - (1<<31)%nn)
+		p.assume(tt.Cmp(OUle, v, tt.Const(BV32, uint64(max))))
+		return tt.Bin(OURem, v, tt.Const(BV32, uint64(nn)))
+	}
+
 	// ---- os / runtime / misc ----
 	externals["os.Getenv"] = func(p *Path, fr *Frame, fn *ssa.Function, a []Value) Value { return Str{} }
 	externals["os.LookupEnv"] = func(p *Path, fr *Frame, fn *ssa.Function, a []Value) Value {
